@@ -132,7 +132,11 @@ pub fn scenario_peers_at(id: u64, seed: u64, _thorough: bool, starts: Option<Vec
     }
     let end = offs.iter().max().unwrap() + 9000;
     s.run_until(end);
-    s.log(json!({"e": "outcome", "n": n, "same_host": same_host}));
+    // (start ticks of an enumerated vector: the outcome is compared with what ProbeMech.tla can settle in)
+    match &starts {
+        Some(v) => s.log(json!({"e": "outcome", "n": n, "same_host": same_host, "start": v})),
+        None => s.log(json!({"e": "outcome", "n": n, "same_host": same_host})),
+    }
     // afterwards: every question type against every daemon, then unregister one (goodbye under current names)
     for k in 0..n {
         let full = svcs[k].fullname();
